@@ -71,6 +71,41 @@ class Ring:
             ca, sa = self.atom(c), self.atom(s)
             self.sq_rules[sa] = p_add(p_const(1), p_mul(p_var(ca), p_var(ca)), -1)
         self._sqrt_pairs = list(sqrt_pairs)
+        self.lin_rules = {}    # atom -> polynomial (from oriented hypothesis equalities)
+        self._eq_sq = set()
+
+    def add_equation_rules(self, hyps):
+        """use hypotheses of the shape  atom == poly  or  atom*atom == poly  (atom an
+        uninterpreted application not occurring in poly) as rewrite rules"""
+        for h in hyps:
+            for c in _conjuncts(h):
+                if not z3.is_eq(c):
+                    continue
+                lhs, rhs = c.children()
+                try:
+                    if z3.is_app(lhs) and lhs.decl().kind() == z3.Z3_OP_UNINTERPRETED and lhs.num_args() > 0:
+                        a = self.atom(lhs)
+                        if a in self.lin_rules or a in self.sq_rules:
+                            continue
+                        rp = self.poly(rhs)
+                        if any(v == a for m in rp for v, _ in m):
+                            continue
+                        self.lin_rules[a] = rp
+                        self.memo.clear()
+                    elif z3.is_app(lhs) and lhs.decl().kind() == z3.Z3_OP_MUL and lhs.num_args() == 2 \
+                            and lhs.arg(0).eq(lhs.arg(1)) and z3.is_app(lhs.arg(0)) \
+                            and lhs.arg(0).decl().kind() == z3.Z3_OP_UNINTERPRETED and lhs.arg(0).num_args() > 0:
+                        a = self.atom(lhs.arg(0))
+                        if a in self.lin_rules or a in self._eq_sq:
+                            continue
+                        self._eq_sq.add(a)      # explicit equations override the Pythagoras rule
+                        rp = self.poly(rhs)
+                        if any(v == a for m in rp for v, _ in m):
+                            continue
+                        self.sq_rules[a] = rp
+                        self.memo.clear()
+                except NotPoly:
+                    continue
 
     def add_sqrt_rules(self):
         for t, r in self._sqrt_pairs:
@@ -164,12 +199,19 @@ class Ring:
                         md[iv] -= k
                         changed = True
                 repl = None
-                for s, rule in self.sq_rules.items():
-                    if md.get(s, 0) >= 2:
-                        md[s] -= 2
+                for v, rule in self.lin_rules.items():
+                    if md.get(v, 0) >= 1:
+                        md[v] -= 1
                         repl = rule
                         changed = True
                         break
+                if repl is None:
+                    for s, rule in self.sq_rules.items():
+                        if md.get(s, 0) >= 2:
+                            md[s] -= 2
+                            repl = rule
+                            changed = True
+                            break
                 m2 = tuple(sorted((v, pw) for v, pw in md.items() if pw > 0))
                 term = {m2: c}
                 if repl is not None:
@@ -224,6 +266,7 @@ def prove_equalities(goal, trig_pairs, hyps, sqrt_pairs=()):
     try:
         ring = Ring(trig_pairs, nonzero_atoms(hyps), sqrt_pairs)
         ring.add_sqrt_rules()
+        ring.add_equation_rules(hyps)
         for c in _conjuncts(goal):
             if z3.is_true(c):
                 continue
